@@ -155,10 +155,42 @@ def returned (s : RSys) : EOp → List Nat
       | some _ => (s.syncAnswer t elim).2.2.2
   | _ => []
 
-/-- States reachable from a fresh regulator with `2 ≤ min ≤ max` by valid operations. -/
+/-- States reachable from a fresh regulator by valid operations in which the status only moves
+    forward (`ok`): the domain of C19 and C20.  ANY setting with `1 ≤ max` (with `max = 0` the Go
+    code divides by zero in `float64`, and converts `±Inf`/`NaN` to `int`, in every operation that
+    looks at the number of tables required: outside the model) and ANY `min` (no theorem of C19 or
+    C20 needs `2 ≤ min ≤ max`). -/
 inductive Reachable : RSys → Prop
-  | init (max min : Nat) (h2 : 2 ≤ min) (hm : min ≤ max) : Reachable (init max min)
+  | init (max min : Nat) (h1 : 1 ≤ max) : Reachable (init max min)
   | step {s : RSys} (op : EOp) : Reachable s → s.ok op → Reachable (s.step op)
+
+/-! The widest domain (C09): as `ok`, but `SetStatus` may name ANY status at any time, as the Go
+    code accepts it — in particular `SetStatus(Pending)` on a running competition. -/
+
+/-- Validity of an operation without the restriction on the direction of status changes. -/
+def okAny (s : RSys) : EOp → Prop
+  | .status st ch => (s.r.setStatus st ch).badChoice = false
+  | op => s.ok op
+
+instance (s : RSys) (op : EOp) : Decidable (s.okAny op) := by
+  cases op <;> simp only [okAny] <;> infer_instance
+
+theorem okAny_of_ok {s : RSys} {op : EOp} (h : s.ok op) : s.okAny op := by
+  cases op with
+  | status st ch => exact h.2
+  | add ps ch => exact h
+  | sync t elim stay rel keep ch => exact h
+
+/-- States reachable from a fresh regulator with any setting `1 ≤ max` by operations valid in the
+    wide sense (`okAny`). -/
+inductive ReachableAny : RSys → Prop
+  | init (max min : Nat) (h1 : 1 ≤ max) : ReachableAny (init max min)
+  | step {s : RSys} (op : EOp) : ReachableAny s → s.okAny op → ReachableAny (s.step op)
+
+theorem Reachable.any {s : RSys} (h : Reachable s) : ReachableAny s := by
+  induction h with
+  | init max min h1 => exact .init max min h1
+  | step op _ hok ih => exact .step op ih (okAny_of_ok hok)
 
 /-! Notions for C20 (rebalancing): elimination-free syncs and whether they ask for anything. -/
 
@@ -200,6 +232,26 @@ theorem Reachable.run {s : RSys} (h : Reachable s) : ∀ (ops : List EOp), allOk
   induction ops generalizing s with
   | nil => intro _; exact h
   | cons op ops ih => intro hok; exact ih (Reachable.step op h hok.1) hok.2
+
+/-- every operation of the script is valid in the wide sense when its turn comes -/
+def allOkAny : RSys → List EOp → Prop
+  | _, [] => True
+  | s, op :: ops => s.okAny op ∧ allOkAny (s.step op) ops
+
+instance decAllOkAny : (s : RSys) → (ops : List EOp) → Decidable (allOkAny s ops)
+  | _, [] => isTrue trivial
+  | s, op :: ops =>
+    match (inferInstance : Decidable (s.okAny op)), decAllOkAny (s.step op) ops with
+    | isTrue h1, isTrue h2 => isTrue ⟨h1, h2⟩
+    | isFalse h1, _ => isFalse fun h => h1 h.1
+    | _, isFalse h2 => isFalse fun h => h2 h.2
+
+theorem ReachableAny.run {s : RSys} (h : ReachableAny s) :
+    ∀ (ops : List EOp), allOkAny s ops → ReachableAny (s.run ops) := by
+  intro ops
+  induction ops generalizing s with
+  | nil => intro _; exact h
+  | cons op ops ih => intro hok; exact ih (ReachableAny.step op h hok.1) hok.2
 
 end RSys
 end Pokerface
